@@ -143,3 +143,78 @@ Example ex_stream_premises :
   Nat.ltb 125 (length ex_stream_bytes) = true /\
   length (l_msgs (feed_all loader_new ex_stream_chunks)) = 2%nat.
 Proof. vm_compute. repeat split; try reflexivity. Qed.
+
+(* ---- the same with a message still in flight at the end of what has arrived ---- *)
+
+(* a message still in flight: a proper prefix of the serialisation of a sendable message (or nothing) *)
+Definition in_flight (tail : bytes) : Prop :=
+  tail = [] \/ exists m c, sendable m /\ tail ++ c = spec_encode_message m /\ c <> [].
+
+Lemma qm_in_flight f tail r msgs0 : in_flight tail ->
+  queue_messages f (mkLoader tail false r msgs0 0 DBUS_MAXIMUM_MESSAGE_LENGTH)
+  = mkLoader tail false r msgs0 0 DBUS_MAXIMUM_MESSAGE_LENGTH.
+Proof.
+  intros [->|(m & c & [W Hn] & E & Hc)]; [apply qm_short; cbn; [reflexivity|lia]|].
+  destruct f as [|f]; [reflexivity|]. rewrite qm_S. cbn [l_buf l_corrupted l_reason l_msgs l_fds l_max].
+  destruct (nlen tail <? DBUS_MINIMUM_HEADER_SIZE) eqn:Hs; [reflexivity|].
+  change DBUS_MINIMUM_HEADER_SIZE with 16 in Hs.
+  destruct (loader_complete_clean m [] 0 W ltac:(lia)) as (Hh & _). cbv zeta in Hh. rewrite app_nil_r, <- E in Hh.
+  assert (H16 : (16 <= length tail)%nat) by (unfold nlen in Hs; lia).
+  rewrite (have_message_app _ tail c H16) in Hh.
+  destruct (have_message DBUS_MAXIMUM_MESSAGE_LENGTH tail) as [rr|le fl hl bl b] eqn:Ht; [discriminate|].
+  injection Hh as -> -> -> -> _.
+  destruct (have_ok_inv _ _ _ _ _ _ _ Ht) as [_ ->].
+  pose proof (encode_len m) as HL. rewrite <- E, nlen_app in HL.
+  assert (0 < nlen c) by (destruct c; [congruence|unfold nlen; cbn; lia]).
+  replace (m_blen m + m_hlen m <=? nlen tail) with false by lia. reflexivity.
+Qed.
+
+Lemma qm_stream_tail : forall ms f msgs0 tail, Forall sendable ms -> in_flight tail ->
+  (length (concat (map spec_encode_message ms) ++ tail) < f)%nat ->
+  exists msgs,
+    queue_messages f (mkLoader (concat (map spec_encode_message ms) ++ tail) false V_VALID msgs0 0 DBUS_MAXIMUM_MESSAGE_LENGTH)
+    = mkLoader tail false V_VALID (msgs0 ++ msgs) 0 DBUS_MAXIMUM_MESSAGE_LENGTH /\ Forall2 delivered ms msgs.
+Proof.
+  induction ms as [|m ms IH]; intros f msgs0 tail HS HT Hf.
+  - exists []. rewrite app_nil_r. split; [|constructor]. cbn [map concat app]. apply qm_in_flight. exact HT.
+  - inversion HS as [|? ? [W Hn] HS']; subst.
+    destruct f as [|f]; [lia|]. cbn [map concat] in *. rewrite <- app_assoc in *.
+    set (rest := concat (map spec_encode_message ms) ++ tail) in *.
+    destruct (loader_complete_clean m rest 0 W ltac:(lia)) as (Hh & hs & HF & Hl & He). cbv zeta in *.
+    rewrite qm_S. cbn [l_buf l_corrupted l_reason l_msgs l_fds l_max].
+    pose proof (encode_len m) as HL.
+    replace (nlen (spec_encode_message m ++ rest) <? DBUS_MINIMUM_HEADER_SIZE) with false
+      by (rewrite nlen_app, HL; unfold m_hlen; change DBUS_MINIMUM_HEADER_SIZE with 16; lia).
+    rewrite Hh, Hl. cbn [m_nfds].
+    rewrite skipn_app_exact by (rewrite <- HL; symmetry; apply nlen_len). rewrite Hn. change (0 - 0) with 0.
+    assert (Hf' : (length rest < f)%nat).
+    { rewrite app_length in Hf. assert (16 <= nlen (spec_encode_message m)) by (rewrite HL; unfold m_hlen; lia).
+      unfold nlen in *. lia. }
+    destruct (IH f (msgs0 ++ [mkMsg (firstn (N.to_nat (m_hlen m)) (spec_encode_message m)) (m_bodyb m) hs 0]) tail HS' HT Hf') as (msgs & E & F2).
+    fold rest in E.
+    eexists (_ :: msgs). rewrite E, <- app_assoc. split; [reflexivity|].
+    constructor; [|exact F2]. unfold delivered. cbn [m_header m_body m_nfds m_fields].
+    split; [exact He|]. split; [reflexivity|]. split; [reflexivity|]. split; [exact HF|].
+    apply (reader_msg m). exact (proj1 (proj1 (wf_msg_iff m) W)).
+Qed.
+
+Theorem stream_delivery_in_flight ms tail chunks : Forall sendable ms -> in_flight tail ->
+  concat chunks = concat (map spec_encode_message ms) ++ tail ->
+  exists msgs, outcome (feed_all loader_new chunks) = (false, msgs) /\ Forall2 delivered ms msgs /\
+    l_buf (feed loader_new (concat chunks) 0) = tail.
+Proof.
+  intros HS HT Hc. rewrite chunking_unconditional, Hc.
+  unfold feed, loader_new. cbn [l_buf l_corrupted l_reason l_msgs l_fds l_max app]. change (0 + 0) with 0.
+  destruct (qm_stream_tail ms (S (length (concat (map spec_encode_message ms) ++ tail))) [] tail HS HT ltac:(lia)) as (msgs & E & F2).
+  exists msgs. rewrite E. split; [reflexivity|]. split; [exact F2|reflexivity].
+Qed.
+Print Assumptions stream_delivery_in_flight.
+
+Example ex_in_flight : in_flight (firstn 20 (spec_encode_message ex_stream_b)) /\ in_flight (firstn 7 (spec_encode_message ex_stream_a)).
+Proof.
+  split; right.
+  - exists ex_stream_b, (skipn 20 (spec_encode_message ex_stream_b)). split; [split; vm_compute; reflexivity|].
+    split; [apply firstn_skipn|vm_compute; discriminate].
+  - exists ex_stream_a, (skipn 7 (spec_encode_message ex_stream_a)). split; [split; vm_compute; reflexivity|].
+    split; [apply firstn_skipn|vm_compute; discriminate].
+Qed.
